@@ -314,13 +314,16 @@ func TestC06(t *testing.T) {
 	L := pick(3, 4)
 	p := c.rec.NewPart("bytes_exhaustive", fmt.Sprintf("every string of length 0..%d over the %d-symbol SQL byte-class alphabet", L, len(gen.AlphaSQL)), false, true, fmt.Sprintf("%d^<=%d", len(gen.AlphaSQL), L))
 	c.EnumSeq(p, gen.AlphaSQL, "", 0, L, judge)
-	Lc := pick(5, 6)
-	core := gen.CoreSQL
-	if !thorough() {
-		core = core[:18] // quick: the 18 symbols that open, close or escape a construct
+	core := gen.CoreSQL[:18] // the 18 symbols that open, close or escape a construct
+	if thorough() {
+		p = c.rec.NewPart("bytes_core24_exhaustive", "every string of length 5 over the 24-symbol core alphabet", false, true, "")
+		c.EnumSeq(p, gen.CoreSQL, "", 5, 5, judge)
+		p = c.rec.NewPart("bytes_core_exhaustive", "every string of length 6 over the 18-symbol core alphabet", false, true, "")
+		c.EnumSeq(p, core, "", 6, 6, judge)
+	} else {
+		p = c.rec.NewPart("bytes_core_exhaustive", fmt.Sprintf("every string of length %d..5 over the %d-symbol core alphabet", L+1, len(core)), false, true, "")
+		c.EnumSeq(p, core, "", L+1, 5, judge)
 	}
-	p = c.rec.NewPart("bytes_core_exhaustive", fmt.Sprintf("every string of length %d..%d over the %d-symbol core alphabet", L+1, Lc, len(core)), false, true, "")
-	c.EnumSeq(p, core, "", L+1, Lc, judge)
 
 	// (1b) token-level enumeration (space-joined atoms)
 	p = c.rec.NewPart("tokens_exhaustive", fmt.Sprintf("every space-joined sequence of 1..4 atoms over %d token atoms", len(tokenAtoms)), false, true, "")
@@ -331,8 +334,10 @@ func TestC06(t *testing.T) {
 		judge(w, s)
 	})
 	if thorough() {
-		p = c.rec.NewPart("tokens_core_exhaustive", fmt.Sprintf("every space-joined sequence of 5..6 atoms over %d core atoms", len(tokenAtomsThorough)), false, true, "")
-		c.EnumSeq(p, tokenAtomsThorough, " ", 5, 6, judge)
+		p = c.rec.NewPart("tokens_core_exhaustive", fmt.Sprintf("every space-joined sequence of 5 atoms over %d core atoms", len(tokenAtomsThorough)), false, true, "")
+		c.EnumSeq(p, tokenAtomsThorough, " ", 5, 5, judge)
+		p = c.rec.NewPart("tokens_core16_exhaustive", "every space-joined sequence of 6 atoms over the first 16 core atoms", false, true, "")
+		c.EnumSeq(p, tokenAtomsThorough[:16], " ", 6, 6, judge)
 	} else {
 		p = c.rec.NewPart("tokens_core_exhaustive", fmt.Sprintf("every space-joined sequence of 5 atoms over %d core atoms", len(tokenAtomsCore)), false, true, "")
 		c.EnumSeq(p, tokenAtomsCore, " ", 5, 5, judge)
